@@ -17,7 +17,7 @@ use crate::probe::Probe;
 use crate::statejson::{self, oshape_from_spec, Params, ShapeSpec};
 
 pub const TITLE: &str = "Optimisation keeps parameters in range and the cell in its crystal family";
-pub const RULE: &str = "part initial: every group x {hard polygon 3..12 / convex radial, hard circle / trimer, Lennard-Jones circle / trimer}: the from_group state has a finite defined score (> 0 for hard shapes whose area is well defined), in-range parameters, and (hard) no overlap by the harness's tiling oracle. part chains: an initial or a generated valid in-range state, run through 1..4 successive optimisations with independently generated configurations (1..10 inner loops, kT 0..1, every cooling option, max_step_size up to 1, optional convergence), the state being passed on between stages. After every stage, from the JSON of the returned state and that stage's input: 0.01 <= length <= input length; 0.1 <= ratio <= input ratio; angle in [pi/6, pi/2] for oblique groups and bit-identical otherwise; x,y in [-1/2,1/2]; orientation in [0,2pi]; group label, wallpaper family and cell family unchanged; score() finite and defined. Non-trivial = a chain of >= 2 stages in which a cell parameter changed and some proposal was clamped to a bound; distinct by hash of the case.";
+pub const RULE: &str = "part initial: every group x {hard polygon 3..12 / convex radial, hard circle / trimer, Lennard-Jones circle / trimer}: the from_group state has a finite defined score (> 0 for hard shapes whose area is well defined), in-range parameters, and (hard) no overlap by the harness's tiling oracle. part chains: an initial or a generated valid in-range state, run through 1..4 successive optimisations with independently generated configurations (1..10 inner loops, kT 0..1, every cooling option, max_step_size from 1e-3 up to 8 (a single move may exceed a parameter's whole range), optional convergence), the state being passed on between stages. After every stage, from the JSON of the returned state and that stage's input: 0.01 <= length <= input length; 0.1 <= ratio <= input ratio; angle in [pi/6, pi/2] for oblique groups and bit-identical otherwise; x,y in [-1/2,1/2]; orientation in [0,2pi]; group label, wallpaper family and cell family unchanged; score() finite and defined. Non-trivial = a chain of >= 2 stages in which a cell parameter changed and some proposal was clamped to a bound; distinct by hash of the case.";
 
 pub fn assumptions() -> Vec<&'static str> {
     vec!["the state is handed from stage to stage through serde_json::Value (bit-exact), which re-derives the bounds from the current values exactly as a fresh generate_basis() does"]
@@ -164,7 +164,7 @@ fn cfg_strat() -> BoxedStrategy<OptCfg> {
         prop_oneof![2 => Just(0.), 2 => (-3.0..0.0f64).prop_map(|e| 10f64.powf(e))],
         prop_oneof![Just(None), Just(Some(0.001)), Just(Some(0.))],
         prop_oneof![Just(None), Just(Some(0.1)), Just(Some(0.))],
-        prop_oneof![2 => (-3.0..0.0f64).prop_map(|e| 10f64.powf(e)), 2 => Just(1.0), 1 => Just(0.01)],
+        prop_oneof![4 => (-3.0..0.0f64).prop_map(|e| 10f64.powf(e)), 4 => Just(1.0), 2 => Just(0.01), 1 => Just(2.5), 1 => Just(5.0), 1 => (1.0..8.0f64)],
         prop_oneof![3 => Just(None), 1 => Just(Some(1e-6))],
         any::<u64>(),
     )
